@@ -1,7 +1,7 @@
 """C08 — point decoders are total, strict and build-profile independent."""
 from core import report
 from core.sm9 import Repo
-from . import shared, convert
+from . import shared, conv2 as convert
 
 SPEC = {
     "crate::G1::from_slice": {"lens": {64}, "prefix": None},
@@ -22,7 +22,7 @@ def run(ctx):
     per_cfg = {}
     for cfg in ("dev", "rel"):
         repo = Repo(ctx.facts(cfg))
-        ls = convert.make_lensim(repo)
+        ls = convert.make_conv(repo)
         r_acc, results = convert.rule_accept("C08", repo, ls, SPEC, cfg)
         rules.append(r_acc)
         rules.append(convert.rule_total("C08", repo, ls, list(SPEC) + EXTRA_ENTRIES, cfg, results))
@@ -49,8 +49,9 @@ def run(ctx):
     rules.append(r.finish())
     return report.emit(
         "C08", ctx.tier, ctx.seed, rules, ctx.started,
-        "Value-set analysis of the seven decoder entry points over the full abstract domain (length partition split at every compared constant x all 256 "
-        "first bytes) in the dev and release MIR: acceptance sets, reachability of every panic site of the conversion layer (assertions, slice primitives, "
-        "unwrap/expect; constant-trip loops unrolled), strictness of coordinate parsing, funnel through the validated constructor and the parity truth table.",
+        "Byte-provenance abstract execution of the seven decoder entry points over the full abstract domain (length partition split at every compared constant x all 256 "
+        "first bytes where a branch tests the tag) in the dev and release MIR: acceptance sets, reachability of every panic of the conversion layer (assertions, slice "
+        "primitives, unwrap/expect; literal-bound loops run out), and — read off the value term and path condition of every successful path — strict parsing of each "
+        "coordinate, funnel through the validated constructor and the parity selection.",
         shared.ASSUMPTIONS + ["contract of ark_ff BigInt::to_bytes_be (8·N bytes)", "field arithmetic reached after parsing (sqrt, curve test, scalar multiplication) is panic-free: audited by C18's profile-dependent-site rule, not here"],
         ["correctness of sqrt and of the curve / subgroup arithmetic used inside the decoders (C09 decides the structure of the validated constructor)"])
